@@ -8,5 +8,8 @@ CHECK = {
         unit("calculate-ttl", "framework", ["framework/c05_ttl_test.go"], "^TestVerif_C05_",
              quick={"checks": 50000, "shards": 1, "cap": 300},
              thorough={"checks": 400000, "shards": 8, "cap": 1200}),
+        unit("leases", "vault", ["vault/c05_test.go"], "^TestVerif_C05_",
+             quick={"checks": 100, "shards": 1, "cap": 900, "steps": 25},
+             thorough={"checks": 500, "shards": 16, "cap": 3000, "steps": 50}),
     ],
 }
